@@ -7,6 +7,10 @@ HERE = os.path.dirname(os.path.dirname(os.path.abspath(__file__)))
 
 # id -> (level category, technique, level text, level note, design ref)
 CHECKS = {
+ "C01": ("exploration", "reference-model runtime monitor (differential execution against an independent definitional interpreter)",
+         "Every generated core-language program is executed by the real interpreter and by an independently written reference interpreter; value (structural), error condition, ordered effect trace from host probe builtins and debug-print output must agree. Sampled exploration with measured coverage of constructs, construct pairs and builtin x argument-type signatures; not exhaustive.",
+         "Trusts harness/refint as the statement of the reference semantics (docs/lang.md + docstrings; pinned behaviour where they are silent); error messages and map-key spelling are not compared; programs the model declines (fuel, constructs outside its scope) are not judged.",
+         "DESIGN.md 4/C01"),
 }
 
 ALL = ["C%02d" % i for i in range(1, 21)]
